@@ -67,20 +67,35 @@ Theorem C12_alias_is_convention : forall d, In d registry -> rdef_ok d = true.
 Proof. apply forallb_forall. vm_compute. reflexivity. Qed.
 
 (* call(name, args, kwargs) hands over plain values and python keywords where a direct call has
-   constant expressions and `name => value` arguments: after translation the two differ only in
-   AConst v / ARaw v, which typed parameters do not distinguish (partial: lazy parameters and non-constant
-   arguments are outside this statement; the registry sweep in O covers call() on the real library) *)
-Theorem C12_call_function_partial : forall (sub : tag -> tag -> bool) (vs : list value) (kvs : list (Z * value)),
+   constant expressions and `name => value` arguments.  (1) binding does not distinguish the two, for
+   every definition whose parameters are eagerly evaluated typed (or hidden) ones - lazy parameters
+   legitimately see a value instead of an expression; (2) translation of the direct call yields exactly
+   the positional/keyword split that call() passes *)
+Theorem C12_call_function : forall (sub : tag -> tag -> bool) ps args kw,
+  NoDup (bound_names ps) -> forallb eager_kind ps = true ->
+  get_delegate sub ps (map to_raw args) (raw_kw kw) = get_delegate sub ps args kw.
+Proof. exact call_function_typed. Qed.
+
+Theorem C12_call_translation : forall (vs : list value) (kvs : list (Z * value)),
   split_args (map AConst vs ++ map (fun kv => AMapC (fst kv) (snd kv)) kvs) [] [] =
     (map AConst vs, fold_left (fun acc kv => kw_set (fst kv) (AConst (snd kv)) acc) kvs []) /\
-  split_args (map ARaw vs) [] [] = (map ARaw vs, []) /\
-  (forall p t n v, pkind p = KTyped t n -> checked sub p (AConst v) = checked sub p (ARaw v)).
+  split_args (map ARaw vs) [] [] = (map ARaw vs, []).
 Proof.
-  intros sub vs kvs. split; [|split].
+  intros vs kvs. split.
   - rewrite split_args_app, split_args_consts. cbn [fst snd app]. apply split_args_maps.
   - apply split_args_plain.
-  - intros p t n v. apply checked_const_raw.
 Qed.
+
+(* general form behind the theorems above: the binding is determined by what is delivered to every
+   parameter, to *args and to **kwargs *)
+Theorem C12_binding_depends_on_delivery : forall (sub : tag -> tag -> bool) ps args1 kw1 args2 kw2,
+  NoDup (bound_names ps) ->
+  (forall p, In p ps -> binds p = true ->
+             deliver sub p (given ps args1 kw1 p) = deliver sub p (given ps args2 kw2 p)) ->
+  extras_bind sub ps args1 = extras_bind sub ps args2 ->
+  (forall acc, left_bind sub ps (dels (bound_names ps) kw1) acc = left_bind sub ps (dels (bound_names ps) kw2) acc) ->
+  get_delegate sub ps args1 kw1 = get_delegate sub ps args2 kw2.
+Proof. exact get_delegate_deliver. Qed.
 
 (* ---- non-vacuity: def f(a, engine, b=D(), context, c=None, *rest, k=None, **kw) in a scrambled
    dictionary order; the premises hold and every spelling binds alike -------------------------------- *)
@@ -129,4 +144,6 @@ Print Assumptions C12_slots_increase.
 Print Assumptions C12_explicit_default.
 Print Assumptions C12_kind_exclusive.
 Print Assumptions C12_alias_is_convention.
-Print Assumptions C12_call_function_partial.
+Print Assumptions C12_call_function.
+Print Assumptions C12_call_translation.
+Print Assumptions C12_binding_depends_on_delivery.
